@@ -12,7 +12,7 @@ definitions with the same source text (`leafView`, `parentView`, `notBoth`, `sta
 are definitionally the predicate's, and then related to the views by case analysis.
 -/
 
-namespace Bao.SpecPred
+namespace Bao.SpecPost
 
 open Bao Bao.NodeIterL Bao.Ops
 
@@ -220,4 +220,4 @@ theorem wantLeaves_tile (size bs i : Nat) (h : i < Spec.nBlocks size bs) :
   simp only [leafInfo, Nat.mul_assoc] at this
   exact this
 
-end Bao.SpecPred
+end Bao.SpecPost
